@@ -7,6 +7,9 @@ from vlib.kitchen import run_cases, Docs, types_of, defs_of
 PROPS_FILE = "Props/C19.v"
 RAW = ["", "{", "[1,", '{"a":', "nul", "\x00", '{"a":1}}', "[[[[[[[[[[", '"unterminated', "{\"a\":1,}", "01", "--1", "tru", '{"a" 1}', "\xff\xfe"]
 SHAPES = [None, True, 0, 1, -1, 1.5, "", "x", [], [1], [[]], [None], {}, {"a": None}, {"zz": {"y": [1, {"z": None}]}}]
+# partially acceptable content: a well-typed member next to a wrongly typed one (a decoder that writes as it goes leaves traces)
+MIXED = [{"cpu": 2, "mem": "lots"}, {"cpu": "lots", "mem": 2}, {"a": "x", "b": {"c": 1}}, [1, "x"], ["x", 1], {"a": 1, "b": [1], "c": "s", "d": True}]
+PRIORS = ['{"disk": 9}', '{"a": "kept"}', '["kept"]']
 
 
 def typed_addl_null(c, doc):
@@ -83,8 +86,21 @@ def run(ctx):
                 docs.append({"doc": v, "cls": "shape-" + "inner", "path": (), "t": t})
             for r in RAW[:5]:
                 docs.append({"doc": None, "raw": r, "cls": "malformed-inner", "path": (), "t": t})
+            for v in MIXED:
+                docs.append({"doc": v, "cls": "mixed-inner", "path": (), "t": t})
+                for pr in PRIORS:
+                    docs.append({"doc": v, "cls": "mixed-inner+prior", "path": (), "t": t, "prior": pr})
         cc = Case(c.cid + "i", c.schema, docs, fam="inner-types")
         cases2.append(cc)
+    # composites whose branches are maps / arrays / scalars-in-objects: the branch types get methods of their own
+    comp = {"type": "object", "properties": {
+        # (without additionalProperties: false in the object branch the output does not compile: finding C01-anyof-typed-map-branch-imports)
+        "limits": {"anyOf": [{"type": "object", "additionalProperties": {"type": "integer"}}, {"type": "object", "properties": {"preset": {"type": "string"}}, "required": ["preset"], "additionalProperties": False}]},
+        "labels": {"anyOf": [{"type": "object", "additionalProperties": {"type": "string"}}, {"type": "object", "properties": {"n": {"type": "integer", "minimum": 1}}, "required": ["n"], "additionalProperties": False}]},
+        "both": {"allOf": [{"type": "object", "properties": {"a": {"type": "string"}}, "required": ["a"]}, {"type": "object", "properties": {"b": {"type": "integer"}}}]}}}
+    for wire in ("json", "yaml"):
+        docs = [{"doc": {"limits": {"cpu": 2}, "labels": {"n": 2}, "both": {"a": "x"}}, "cls": "valid", "path": ()}]
+        cases2.append(Case("c19cm" + wire, comp, docs, fam="composite-branches/" + wire, extra_imports=True, wire=wire, no_model=True))
     # types and fields named like the identifiers the method templates use (Plain, plain, raw, value, err, j), through both decoders
     tn = {"type": "object",
           "$defs": {"Plain": {"type": "object", "properties": {"text": {"type": "string", "minLength": 2}}, "required": ["text"]},
@@ -104,6 +120,21 @@ def run(ctx):
             docs.append({"doc": v, "cls": "shape", "path": ()})
         cases2.append(Case("c19tn" + wire, tn, docs, fam="template-names/" + wire, extra_imports=True, wire=wire, no_model=True))
     run_cases(ctx, cases2, "c19i")
+    # the inner types of the composite cases (known only after generation)
+    cases3 = []
+    for c in cases2:
+        if not c.fam.startswith("composite-branches") or not c.build_ok:
+            continue
+        tnames = sorted(set(t["name"] for sc in c.scan.values() for t in sc["types"] if t["name"] != "Root"))[:10]
+        docs = []
+        for t in tnames:
+            for v in SHAPES[:12] + MIXED:
+                docs.append({"doc": v, "cls": "inner", "path": (), "t": t})
+                for pr in PRIORS[:2]:
+                    docs.append({"doc": v, "cls": "inner+prior", "path": (), "t": t, "prior": pr})
+        cases3.append(Case(c.cid + "i", c.schema, docs, fam=c.fam + "/inner", extra_imports=True, wire=c.wire, no_model=True))
+    run_cases(ctx, cases3, "c19j")
+    cases2 = cases2 + cases3
     nv = 0
     allc = cases + cases2
     stats = {"REJ": 0, "ACC": 0, "PANIC": 0, "rej_with_prior": 0, "programs_wf": 0, "programs_not_wf": 0}
